@@ -821,8 +821,9 @@ func (g *graph) compile(ctx context.Context, opt *graphCompileOptions) (*composa
 			inputPairs[key] = c.action.inputStreamConvertPair
 			outputPairs[key] = c.action.outputStreamConvertPair
 		}
-		inputPairs[END] = r.outputConvertStreamPair
-		outputPairs[START] = r.inputConvertStreamPair
+		// END consumes the graph's output type and START produces the graph's input type
+		inputPairs[END] = r.outputStreamConvertPair
+		outputPairs[START] = r.inputStreamConvertPair
 		r.checkPointer = newCheckPointer(inputPairs, outputPairs, opt.checkPointStore)
 
 		r.interruptBeforeNodes = opt.interruptBeforeNodes
